@@ -868,6 +868,44 @@ def _oracle_purity(S, extra):
                     name = "+".join("hybrid36" if x else "classic" for x in seq[:step + 1])
                     return [(f"C07/purity/repeated-export-differs/{name}",
                              f"export #{step + 1} of the same object ({name}) differs from the export of a fresh copy")]
+        # one PDBFile object used again: set_structure(A), read, set_structure(B), read -- B must be read as from a fresh object
+        n = len(S["atoms"])
+        variants = []
+        if n > 1:
+            keep = list(range(n - 1))
+            variants.append({"atoms": S["atoms"][:-1], "models": [m[:-1] for m in S["models"]], "flags": S["flags"], "box": S.get("box"),
+                             "bonds": [b for b in S["bonds"] if b[0] in keep and b[1] in keep]})
+        variants.append({"atoms": S["atoms"] + S["atoms"][:1], "models": [m + m[:1] for m in S["models"]] + [S["models"][0] + S["models"][0][:1]],
+                         "flags": dict(S["flags"], bonds=False, id=False), "box": None, "bonds": []})
+        fields4 = ["atom_id", "b_factor", "occupancy", "charge"]
+        for B in variants:
+            for first, second in ((S, B), (B, S)):
+                f = PDBFile()
+                try:
+                    f.set_structure(build_array(first, extra), hybrid36=first["flags"]["h36"])
+                    f.get_structure(extra_fields=fields4)
+                    f.get_coord()
+                    f.get_b_factor()
+                    f.set_structure(build_array(second, extra), hybrid36=second["flags"]["h36"])
+                    g = PDBFile()
+                    g.set_structure(build_array(second, extra), hybrid36=second["flags"]["h36"])
+                except Exception:  # noqa: BLE001
+                    continue
+                if list(f.lines) != list(g.lines):
+                    return [("C07/purity/file-object-reuse/lines", "set_structure on a used PDBFile object wrote different lines than on a fresh one")]
+                res = []
+                for obj in (f, g):
+                    try:
+                        st = obj.get_structure(extra_fields=fields4)
+                        res.append((_snapshot(st), obj.get_coord().tobytes(), obj.get_coord().shape, obj.get_b_factor().tobytes(),
+                                    obj.get_model_count()))
+                    except Exception as e:  # noqa: BLE001
+                        res.append("ERR:" + type(e).__name__)
+                if res[0] != res[1]:
+                    what = res[0] if isinstance(res[0], str) else f"coord shape {res[0][2]}"
+                    want = res[1] if isinstance(res[1], str) else f"coord shape {res[1][2]}"
+                    return [("C07/purity/file-object-reuse/read",
+                             f"after set_structure(A) + reads + set_structure(B) on one PDBFile, reading gives {what}; a fresh object gives {want}")]
         # reading
         f = PDBFile()
         try:
@@ -1034,6 +1072,23 @@ def _vectors_ref(ln, an):
     return [[a, 0.0, 0.0], [b * math.cos(ga), b * math.sin(ga), 0.0], [c * cx, c * cy, c * math.sqrt(cz2)]]
 
 
+def _rotate(box, rng):
+    """the three box vectors under a random proper rotation (unit quaternion), float64"""
+    while True:
+        q = [rng.gauss(0, 1) for _ in range(4)]
+        nq = math.sqrt(sum(x * x for x in q))
+        if nq > 1e-3:
+            break
+    w, x, y, z = (t / nq for t in q)
+    R = [[1 - 2 * (y * y + z * z), 2 * (x * y - z * w), 2 * (x * z + y * w)],
+         [2 * (x * y + z * w), 1 - 2 * (x * x + z * z), 2 * (y * z - x * w)],
+         [2 * (x * z - y * w), 2 * (y * z + x * w), 1 - 2 * (x * x + y * y)]]
+    if rng.random() < 0.25:            # axis permutations / sign flips: exact in float32
+        R = rng.choice([[[0, 1, 0], [0, 0, 1], [1, 0, 0]], [[0, 0, 1], [1, 0, 0], [0, 1, 0]],
+                        [[-1, 0, 0], [0, -1, 0], [0, 0, 1]], [[0, -1, 0], [1, 0, 0], [0, 0, 1]]])
+    return [[sum(R[i][k] * v[k] for k in range(3)) for i in range(3)] for v in box]
+
+
 ANGLE_DEV = [0.01, 0.02, 0.03, 0.05, 0.1, 0.5]
 
 
@@ -1066,6 +1121,8 @@ def gen_box(rng, ok=True):
         box = _vectors_ref(ln, an)
         if box is None:
             continue
+        if rng.random() < 0.45:
+            box = _rotate(box, rng)       # not in the standard orientation (a along +x, b in the xy plane)
         box = [[f32(v) for v in row] for row in box]
         vals = cell_values(box)
         if not all(math.isfinite(v) for v in vals) or min(vals[:3]) <= 0:
